@@ -1,12 +1,19 @@
 /-
 C04 ↔ C01: the reader layouts of `Model/Field.lean` (`List RF`, extracted by translate/writers.py) against the
 reader shapes of `Model/Shape.lean` (`Shape`, extracted independently by translate/shapes.py for C01, whose generic
-theorem proves those readers safe).  `agrees s rs` is a decidable, purely structural comparison: same number of
+theorem proves those readers safe).  `agrees names s rs` is a decidable, purely structural comparison: same number of
 fields; field `i` of the shape's grouped program (`Shape.prog`) is a scalar of the same width, or an array whose
-byte length is `count × element size` with the same count expression (`x as usize` ↦ `affine x 1 0`,
-`transforms::subtract(x, n)` ↦ `affine x 1 n`, `transforms::half(x)` ↦ `affine x 2 0`, a literal, or
-`remaining_bytes() / n * n` ↦ `rest`) and the same total element size, under the same condition on the same
-previously read field.  Locals of the shape (`readVar x`) are resolved to the field that binds them.
+byte length is `count × element size` with the same count expression and the same total element size, under the same
+condition on the same previously read field.  Locals of the shape (`readVar x`) are resolved to the field that binds
+them, the locals bound by `let (a, b) = *args` to the argument ids `argBase + i`.
+
+count expressions: `x as usize` ↦ `affine x 1 0` (or `expr (field x)` when `x` is an argument / a computed count),
+`transforms::subtract(x, n)` ↦ `affine x 1 n`, `transforms::half(x)` ↦ `affine x 2 0`, a literal,
+`remaining_bytes() / n * n` ↦ `rest`, any other `transforms::f(..)` ↦ `expr` of the transcription of `f`
+(`xformNExpr`), a hand-written count function ↦ `expr (app f ..)` with the same function *name* (C01's generated name
+table `names`).  element sizes: a constant ↦ the sum of the scalar widths; `<R as ComputeSize>::compute_size(&args)`
+↦ a computed layout (`arrayV`) that reads no field / argument outside `args`; `VarSize` ↦ `arrayL` with the same
+prefix width, item size and constant.
 
 It is a cross-check of two independent extractions of the same generated source and names the object C01's safety
 theorem is about; it is *not* a proof that `Field.parse` computes what `Shape.run` + the getters compute (that is
@@ -22,48 +29,124 @@ open FontVerif
 def fieldOfVar (prog : List Shape.FieldP) (x : Nat) : Option Nat :=
   (prog.find? fun fp => fp.readsVar == some x).map (·.id)
 
-def condAgrees (prog : List Shape.FieldP) (c : Shape.Cond) (rc : Option (Nat × Field.Cond)) : Bool :=
+def indexOf (x : Nat) : List Nat → Nat → Option Nat
+  | [], _ => none
+  | a :: as, i => if a == x then some i else indexOf x as (i + 1)
+
+/-- the view entry that holds local `x`: an argument, or the field that reads it -/
+def idOfVar (args : List Nat) (prog : List Shape.FieldP) (x : Nat) : Option Nat :=
+  match indexOf x args 0 with
+  | some i => some (Field.argBase + i)
+  | none => fieldOfVar prog x
+
+def condAgrees (args : List Nat) (prog : List Shape.FieldP) (c : Shape.Cond) (rc : Option (Nat × Field.Cond)) : Bool :=
   match rc with
   | none => false
   | some (g, fc) =>
     match c, fc with
-    | .geU16 x v, .geU16 v' => fieldOfVar prog x == some g && v == v'
-    | .compatMM x a b, .compatMM a' b' => fieldOfVar prog x == some g && a == a' && b == b'
-    | .compatV16 x a b, .compatV16 a' b' => fieldOfVar prog x == some g && a == a' && b == b'
-    | .contains x bits, .contains bits' => fieldOfVar prog x == some g && bits == bits'
-    | .intersects x bits, .intersects bits' => fieldOfVar prog x == some g && bits == bits'
+    | .geU16 x v, .geU16 v' => idOfVar args prog x == some g && v == v'
+    | .compatMM x a b, .compatMM a' b' => idOfVar args prog x == some g && a == a' && b == b'
+    | .compatV16 x a b, .compatV16 a' b' => idOfVar args prog x == some g && a == a' && b == b'
+    | .contains x bits, .contains bits' => idOfVar args prog x == some g && bits == bits'
+    | .intersects x bits, .intersects bits' => idOfVar args prog x == some g && bits == bits'
     | _, _ => false
 
-def countAgrees (prog : List Shape.FieldP) (e : Shape.Expr) (rc : Field.RCount) : Bool :=
-  match e, rc with
-  | .asUsize x t, .affine g a b => fieldOfVar prog x == some g && a == 1 && b == 0 && !t.signed
-  | .lit n, .lit n' => n == n'
-  | .xform .subtract [.var x t, .lit n], .affine g a b => fieldOfVar prog x == some g && a == 1 && b == n && !t.signed
-  | .xform .half [.var x t], .affine g a b => fieldOfVar prog x == some g && a == 2 && b == 0 && !t.signed
-  | _, _ => false
+/-- an argument of a transform / custom function as an expression over view entries (unsigned locals only) -/
+def atomNExpr (args : List Nat) (prog : List Shape.FieldP) : Shape.Atom → Option Field.NExpr
+  | .lit n => some (.lit n)
+  | .var x t => if t.signed then none else (idOfVar args prog x).map Field.NExpr.field
 
-def lenAgrees (prog : List Shape.FieldP) (l : Shape.Len) (cnt : Field.RCount) (elem : List Nat) : Bool :=
-  match l with
-  | .mul c (.const k) => countAgrees prog c cnt && k == Field.elemSize elem
-  | .remFloor k => cnt == .rest && k == Field.elemSize elem
+def atomsNExpr (args : List Nat) (prog : List Shape.FieldP) : List Shape.Atom → Option (List Field.NExpr)
+  | [] => some []
+  | a :: as =>
+    match atomNExpr args prog a, atomsNExpr args prog as with
+    | some e, some es => some (e :: es)
+    | _, _ => none
+
+/-- `read-fonts/src/lib.rs codegen_prelude::transforms`, as `NExpr` (cf. `Shape.evalXform`) -/
+def xformNExpr : Shape.Xform → List Field.NExpr → Option Field.NExpr
+  | .subtract, [a, b] => some (.sub a b)
+  | .add, [a, b] => some (.add a b)
+  | .bitmapLen, [a] => some (.divCeil a 8)
+  | .maxValueBitmapLen, [a] => some (.divCeil (.add a (.lit 1)) 8)
+  | .addMultiply, [a, b, c] => some (.mul (.add a b) c)
+  | .multiplyAdd, [a, b, c] => some (.add (.mul a b) c)
+  | .half, [a] => some (.div a 2)
+  | .subtractAddTwo, [a, b] => some (.add (.sub a b) (.lit 2))
+  | _, _ => none
+
+/-- the Rust path of a hand-written count function, as C01's name table spells it -/
+def cfnName : Field.CFn → String
+  | .valueCount => "DeltaFormat::value_count"
+  | .mapSize => "EntryFormat::map_size"
+  | .deltaSetsLen => "ItemVariationData::delta_sets_len"
+  | .tupleLen => "TupleIndex::tuple_len"
+
+def customAgrees (names : List String) (f : Nat) (es : List Field.NExpr) : Field.NExpr → Bool
+  | .app cf a b c =>
+    names[f]? == some (cfnName cf) &&
+    (match es with
+     | [x] => a == x && b == .lit 0 && c == .lit 0
+     | [x, y] => a == x && b == y && c == .lit 0
+     | [x, y, z] => a == x && b == y && c == z
+     | _ => false)
   | _ => false
 
-def fieldAgrees (prog : List Shape.FieldP) (fp : Shape.FieldP) (r : Field.RF) : Bool :=
+def countAgrees (names : List String) (args : List Nat) (prog : List Shape.FieldP) (e : Shape.Expr) (rc : Field.RCount) : Bool :=
+  match e, rc with
+  | .asUsize x t, .affine g a b => idOfVar args prog x == some g && a == 1 && b == 0 && !t.signed
+  | .asUsize x t, .expr (.field g) => idOfVar args prog x == some g && !t.signed
+  | .lit n, .lit n' => n == n'
+  | .xform .subtract [.var x t, .lit n], .affine g a b => idOfVar args prog x == some g && a == 1 && b == n && !t.signed
+  | .xform .half [.var x t], .affine g a b => idOfVar args prog x == some g && a == 2 && b == 0 && !t.signed
+  | .xform f as, .expr e' =>
+    (match atomsNExpr args prog as with
+     | some es => xformNExpr f es == some e'
+     | none => false)
+  | .custom f as, .expr e' =>
+    (match atomsNExpr args prog as with
+     | some es => customAgrees names f es e'
+     | none => false)
+  | _, _ => false
+
+/-- every field / argument a computed element layout reads is one of the arguments passed to `compute_size` -/
+def segsWithin (args : List Nat) (prog : List Shape.FieldP) (sargs : List Nat) (segs : Field.Segs) : Bool :=
+  (Field.segsRefs segs).all fun g => sargs.any fun x => idOfVar args prog x == some g
+
+def lenAgrees (names : List String) (args : List Nat) (prog : List Shape.FieldP) (l : Shape.Len) : Field.RItem → Bool
+  | .array cnt elem =>
+    (match l with
+     | .mul c (.const k) => countAgrees names args prog c cnt && k == Field.elemSize elem
+     | .remFloor k => cnt == .rest && k == Field.elemSize elem
+     | _ => false)
+  | .arrayV cnt segs =>
+    (match l with
+     | .mul c (.compute _ sargs) => countAgrees names args prog c cnt && segsWithin args prog sargs segs
+     | .one (.compute _ sargs) => cnt == .lit 1 && segsWithin args prog sargs segs
+     | _ => false)
+  | .arrayL cnt hw item =>
+    (match l with
+     | .varLen k c => countAgrees names args prog c cnt && k.prefixSize == hw && k.mul == Field.elemSize item && k.add == hw
+     | _ => false)
+  | .scalar _ => false
+
+def fieldAgrees (names : List String) (args : List Nat) (prog : List Shape.FieldP) (fp : Shape.FieldP) (r : Field.RF) : Bool :=
   fp.id == r.id &&
   match fp.kind, r.item with
   | .scalar sz _, .scalar sz' => r.cond.isNone && sz == sz'
-  | .condScalar c sz _, .scalar sz' => condAgrees prog c r.cond && sz == sz'
-  | .computed l, .array cnt elem => r.cond.isNone && lenAgrees prog l cnt elem
-  | .condComputed c l, .array cnt elem => condAgrees prog c r.cond && lenAgrees prog l cnt elem
+  | .condScalar c sz _, .scalar sz' => condAgrees args prog c r.cond && sz == sz'
+  | .computed l, item => r.cond.isNone && lenAgrees names args prog l item
+  | .condComputed c l, item => condAgrees args prog c r.cond && lenAgrees names args prog l item
   | _, _ => false
 
-def agreesAux (prog : List Shape.FieldP) : List Shape.FieldP → List Field.RF → Bool
+def agreesAux (names : List String) (args : List Nat) (prog : List Shape.FieldP) : List Shape.FieldP → List Field.RF → Bool
   | [], [] => true
-  | fp :: fps, r :: rs => fieldAgrees prog fp r && agreesAux prog fps rs
+  | fp :: fps, r :: rs => fieldAgrees names args prog fp r && agreesAux names args prog fps rs
   | _, _ => false
 
-/-- the reader layout `rs` is the value-level reading of the C01 shape `s` (which takes no external arguments) -/
-def agrees (s : Shape.Shape) (rs : List Field.RF) : Bool :=
-  s.args.isEmpty && agreesAux s.prog s.prog rs
+/-- the reader layout `rs` is the value-level reading of the C01 shape `s`; `names` = C01's table of hand-written
+count function names (`Gen.ReadShapes.customNames`) -/
+def agrees (names : List String) (s : Shape.Shape) (rs : List Field.RF) : Bool :=
+  agreesAux names s.args s.prog s.prog rs
 
 end FontVerif.FieldShape
